@@ -13,7 +13,7 @@ def program(rng, tier):
     for _ in range(rng.randint(20, 40)):
         q = rng.random()
         if q < 0.3:
-            op = rng.choice(['+', '-', '*', '/', '+=', 'dot', 'lt', 'le', 'gt', 'ge', 'eq', 'idx', 'nelms'])
+            op = rng.choice(['+', '-', '*', '/', '+=', 'dot', 'lt', 'le', 'gt', 'ge', 'eq', 'idx', 'nelms', 'asg'])
             a = nds(rng)
             b = a if rng.random() < 0.2 else nds(rng)
             if rng.random() < 0.4:           # same rank, other values
